@@ -39,7 +39,7 @@ def write(root, pid, tier, seed, pconf, results, units, violations, known_hits, 
         entry = {'group': r.name, 'function_under_contract': g.get('enforce') or '(lemma over extracted bodies)',
                  'repo_function': fi.get('qname'), 'file_line': '%s:%s' % (fi.get('file'), fi.get('line')) if fi else None,
                  'callees_replaced_by_contract': g.lst('replace'),
-                 'mode': 'P (unbounded)' if r.mode == 'P' else 'B(%s) bounded stand-in, NOT proved' % r.bound,
+                 'mode': ('P: discharged for all inputs and iterations (loop-free or loop contracts)' + (' within ' + g.get('note') if g.get('note') else '')) if r.mode == 'P' else 'B(%s): bounded stand-in (unwinding assertions), NOT counted as proved' % r.bound,
                  'back_end': r.backend, 'solver_seconds': round(r.seconds, 2), 'obligations': n, 'discharged': d,
                  'status': r.status, 'kind': g.get('kind', 'property')}
         if getattr(r, 'known', None): entry['known_finding'] = r.known.get('what')
@@ -52,7 +52,7 @@ def write(root, pid, tier, seed, pconf, results, units, violations, known_hits, 
                 samples.append({'group': r.name, 'obligation': o['desc'], 'function': o['function'], 'line': o['line'], 'status': o['status']})
     all_pass = all(r.status == 'pass' for _, r in results) and not undecided
     level = pconf.get('level', 'proof')
-    if level == 'proof' and (disch != total or not all_pass): level = 'other'
+    if level == 'proof' and (disch != total or not all_pass or unb == 0): level = 'other'
     tb = list(pconf.get('trusted_base', [])) + [
         'clang 14 parser/sema and its JSON AST dump; the cxx2c emitter (/verif/tools/cxx2c): C text is extracted mechanically from /repo on every run',
         'goto-cc / goto-instrument --dfcc / cbmc 6.11.0 and the back end named per group (minisat2 via cbmc, cvc5 1.0, z3 4.8.12)',
@@ -62,7 +62,9 @@ def write(root, pid, tier, seed, pconf, results, units, violations, known_hits, 
         if v is None: continue
         dropped[u] = v[1].get('dropped'); stubs[u] = v[1].get('auto_stubs')
     cov = {
-        'obligations': total, 'discharged': disch,
+        'obligations': unb, 'discharged': unb_d,
+        'bounded_standins': {'groups': bgroups, 'obligations': total - unb, 'passed': disch - unb_d,
+                             'note': 'bounded groups are reported here only; they are not part of obligations/discharged'},
         'checker_cmd': cmds[0] if cmds else 'n/a',
         'trusted_base': tb,
         'samples': samples or [{'note': 'no sample collected'}],
